@@ -42,9 +42,17 @@ TEvalAccept(p, sol, par, vec, fn, sig, args, cb, ret) ==
   \/ Relaxed("VALUE")
   \/ OracleAccept(p, sol, par, vec, fn, sig, args, cb, ret)
 
+\* args = <<scalars, direction index, number of index arguments>>; spatial gradient directions are
+\* 1..min(dimension, 3)
+TArgsRegular(sol, fn, sig, args) ==
+  LET e == Cat!Catalog[CHOOSE i \in 1..Len(Cat!Catalog) : Cat!Catalog[i].name = sol]
+      nd == IF e.dim > 3 THEN 3 ELSE e.dim
+  IN  args[3] = 1 => args[2] \in 1..nd
+
 M == INSTANCE Masa WITH Prec <- TPrec, Catalog <- Cat!Catalog, Build <- TBuild,
                         Marker <- TMarker, Sentinel <- TSentinel, NoSuchParam <- TNoSuchParam,
-                        InitDflt <- TInitDflt, UseMemo <- ~Relaxed("MEMO"), EvalAccept <- TEvalAccept
+                        InitDflt <- TInitDflt, UseMemo <- ~Relaxed("MEMO"), EvalAccept <- TEvalAccept,
+                        ArgsRegular <- TArgsRegular
 
 tvars == <<reg, sel, live, status, dflt, memo, act, l>>
 
@@ -74,7 +82,7 @@ TSetVec    == IsEvent("setv")    /\ M!SetVec(Ev.p, Ev.api, Ev.k, Ev.v, Out(Ev)) 
 TGetVec    == IsEvent("getv")    /\ M!GetVec(Ev.p, Ev.api, Ev.k, Out(Ev))                   /\ LiveBound(Ev)
 TDispP     == IsEvent("dispp")   /\ M!DisplayParam(Ev.p, Ev.api, Out(Ev))                   /\ LiveBound(Ev)
 TDispV     == IsEvent("dispv")   /\ M!DisplayVec(Ev.p, Ev.api, Out(Ev))                     /\ LiveBound(Ev)
-TEval      == IsEvent("eval")    /\ M!Eval(Ev.p, Ev.api, Ev.fn, Ev.sig, <<Ev.a, Ev.di>>, Ev.cb, Out(Ev)) /\ LiveBound(Ev)
+TEval      == IsEvent("eval")    /\ M!Eval(Ev.p, Ev.api, Ev.fn, Ev.sig, <<Ev.a, Ev.di, Ev.ni>>, Ev.cb, Out(Ev)) /\ LiveBound(Ev)
 
 \* "end": the script ran to completion; the process is still running, nothing changed
 TEnd == /\ IsEvent("end") /\ status = "run"
